@@ -121,8 +121,11 @@ DumpDiff(L, ev) ==
              /\ NoDup(ev.cnames2) /\ ev.cidx = [j \in 1..L.n |-> j - 1]
           THEN {} ELSE {"column names / name->index: " \o ToString(<<L.cname, ev.cnames, ev.cnames2, ev.cidx>>)})
 
-ParDiff(par, ev) == IF ev.par.ppricing = par.ppricing /\ ev.par.dpricing = par.dpricing /\ ev.par.display = par.display
-                       /\ ev.par.maxiter = par.maxiter /\ ev.par.scaling = par.scaling THEN {} ELSE {"parameters"}
+ParDiff(par, ev) == (IF ev.par.ppricing = par.ppricing /\ ev.par.dpricing = par.dpricing /\ ev.par.display = par.display
+                        /\ ev.par.maxiter = par.maxiter /\ ev.par.scaling = par.scaling THEN {} ELSE {"parameters"})
+                    \* the objective limits are parameters too (a copy must carry them whatever the objective sense is at the moment)
+                    \cup (IF {"objulim", "objllim"} \subseteq (DOMAIN par \cap DOMAIN ev.par) /\ (ev.par.objulim # par.objulim \/ ev.par.objllim # par.objllim)
+                          THEN {"objective limits"} ELSE {})
 
 \* ------------------------------------------------------------------ bookkeeping on a handle state
 Edited(s)  == [s EXCEPT !.mut = TRUE, !.edited = TRUE, !.dirty = TRUE, !.truth = [none |-> TRUE], !.lastres = [none |-> TRUE]]
@@ -331,7 +334,11 @@ Step(ev) ==
                THEN (IF ev.rval = 0 THEN R([Mutated(s) EXCEPT !.par = ParamSet(@, ev.which, ev.val), !.limits = @ \/ ev.which = 5], {})
                      ELSE R(Failed(s, "C06"), {V(ev, {"C06"}, "valid parameter rejected")}))
                ELSE (IF ev.rval # 0 THEN R(Failed(s, "C07"), {}) ELSE R(Unsync(s), {V(ev, {"C07"}, "illegal parameter accepted")}))
-          [] c = "set_param_q" -> IF ev.rval = 0 THEN R([Mutated(s) EXCEPT !.limits = TRUE], {}) ELSE R(Failed(s, "C07"), {})
+          [] c = "set_param_q" -> IF ev.rval = 0
+                                   THEN R([Mutated(s) EXCEPT !.limits = TRUE,
+                                                             !.par = IF ev.which = 8 /\ "objulim" \in DOMAIN @ THEN [@ EXCEPT !.objulim = ev.val]
+                                                                     ELSE IF ev.which = 9 /\ "objllim" \in DOMAIN @ THEN [@ EXCEPT !.objllim = ev.val] ELSE @], {})
+                                   ELSE R(Failed(s, "C07"), {})
           [] c = "get_param" ->
                IF ~s.sync THEN R(s, {})
                ELSE IF ev.which \in {0, 2, 4, 5, 7}
